@@ -439,6 +439,19 @@ func (c *mergeCtx) check(cfg simrt.Config) ([]mismatch, simrt.Stats, string) {
 		var o mergeOutcome
 		simrt.Run([]func(){func() {
 			prelude(wl.Cold, wl.Warm)
+			if wl.Scribble {
+				first := doMerge(deliver(wl, wl.Order), wl.Schema)
+				scribbleModel(first.Model)
+				var mv *transformer.ModuleValidationMultipleError
+				if errors.As(first.Err, &mv) {
+					for _, e := range mv.Errors {
+						var se *transformer.ModuleTransformationSingleError
+						if errors.As(e, &se) {
+							se.Msg, se.File, se.Line.Start, se.Column.Start = "SCRIBBLED", "SCRIBBLED", -9, -9
+						}
+					}
+				}
+			}
 			o = doMerge(deliver(wl, wl.Order), wl.Schema)
 		}})
 		st := simrt.End()
@@ -651,6 +664,7 @@ func mergeRunOne(b *BatchResult, prop string, seed, run uint64, nRandom int) {
 		w2 := *wl
 		w2.Cold = i == 0
 		w2.Warm = r.intn(4)
+		w2.Scribble = r.chance(50)
 		c2 := &mergeCtx{wl: &w2, exp: c.exp, canon: c.canon}
 		s := fam[r.intn(len(fam))]
 		mm, st, _ := c2.check(s.cfg)
